@@ -113,6 +113,10 @@ type Options struct {
 	// RaceStart k >= 2: Workstream.Start is called for the plan from k goroutines released together; exactly one
 	// call must succeed (dist/observed `start_ok`), the plan then runs as usual. A run option, not a generator one.
 	RaceStart int
+	// CancelCtxP: with this probability (own PRNG fork per case) Workstream.Start gets a cancellable context that the
+	// harness cancels 0-3 ms after Start returned. Start documents that this does not stop execution, so on correct
+	// code the trace is unaffected. Wait / Plan always use a live context. A run option.
+	CancelCtxP float64
 }
 
 var (
